@@ -488,6 +488,12 @@ class Scheduler:
 _shared_lines_cache = None
 
 
+PROCESS_STATE_CALLS = {("os", "chdir"), ("os", "putenv"), ("os", "unsetenv"), ("os", "umask"), ("sys", "setrecursionlimit"), ("sys", "setswitchinterval"),
+                       ("locale", "setlocale"), ("warnings", "simplefilter"), ("warnings", "filterwarnings"), ("warnings", "catch_warnings"),
+                       ("warnings", "resetwarnings"), ("logging", "disable"), ("signal", "signal"), ("gc", "disable"), ("gc", "enable"),
+                       ("sys", "settrace"), ("sys", "setprofile"), ("threading", "settrace")}
+
+
 def shared_lines() -> dict:
     """{file: frozenset(lines)} of hand-written repo code that visibly touches state shared between calls: a class
     attribute reached through the class (`cls.x`, `SomeClass.x`, `self.__class__.x`), a name declared `global`, a
@@ -564,6 +570,11 @@ def shared_lines() -> dict:
                         lines.add(n.lineno)
                 elif isinstance(n, ast.Name) and (n.id in globs or n.id in mod_names):
                     lines.add(n.lineno)
+                elif isinstance(n, ast.Call) and isinstance(n.func, ast.Attribute) and isinstance(n.func.value, ast.Name):
+                    # state of the PROCESS changed through the standard library: working directory, environment, recursion
+                    # limit, locale, warnings filters, logging switches, umask, signal handlers
+                    if (n.func.value.id, n.func.attr) in PROCESS_STATE_CALLS:
+                        lines.add(n.lineno)
         if lines:
             out[f] = frozenset(lines)
     _shared_lines_cache = out
